@@ -48,10 +48,10 @@ func (n *verifNet) SendMessage(ctx context.Context, p peer.ID, m datatransfer.Me
 	n.Sent = append(n.Sent, verifSent{p, m})
 	return nil
 }
-func (n *verifNet) SetDelegate(r network.Receiver)                    { n.Delegate = r }
-func (n *verifNet) ConnectTo(context.Context, peer.ID) error          { n.Connects++; return nil }
-func (n *verifNet) ConnectWithRetry(context.Context, peer.ID) error   { n.Connects++; return nil }
-func (n *verifNet) ID() peer.ID                                       { return n.self }
+func (n *verifNet) SetDelegate(r network.Receiver)                  { n.Delegate = r }
+func (n *verifNet) ConnectTo(context.Context, peer.ID) error        { n.Connects++; return nil }
+func (n *verifNet) ConnectWithRetry(context.Context, peer.ID) error { n.Connects++; return nil }
+func (n *verifNet) ID() peer.ID                                     { return n.self }
 func (n *verifNet) Protocol(context.Context, peer.ID) (protocol.ID, error) {
 	return datatransfer.ProtocolDataTransfer1_2, nil
 }
